@@ -45,18 +45,25 @@ func TestMain(m *testing.M) {
 // the case: wallet configuration, balance folder, request — pure data
 
 type wcfg struct {
-	Type    int      `json:"type"`              // 3 | 4
-	AType   string   `json:"atype"`             // p2kh segwit bech32 tap
-	Testnet bool     `json:"testnet"`           //
-	Path    []uint32 `json:"path"`              // type 4
-	KeyCnt  int      `json:"keycnt"`            //
-	Pass    string   `json:"pass"`              // seed password
-	CfgFee  string   `json:"cfgfee"`            // wallet.cfg fee= ("" = the default 0.001)
-	SeedPfx string   `json:"seedpfx,omitempty"` // wallet.cfg seed= (prefix of the password)
+	Type    int        `json:"type"`              // 3 | 4
+	AType   string     `json:"atype"`             // p2kh segwit bech32 tap
+	Testnet bool       `json:"testnet"`           //
+	Path    []uint32   `json:"path"`              // type 4
+	KeyCnt  int        `json:"keycnt"`            //
+	Pass    string     `json:"pass"`              // seed password
+	CfgFee  string     `json:"cfgfee"`            // wallet.cfg fee= ("" = the default 0.001)
+	SeedPfx string     `json:"seedpfx,omitempty"` // wallet.cfg seed= (prefix of the password)
+	Others  []otherKey `json:"others,omitempty"`  // keys imported through the .others file (WIF), compressed or not
+}
+
+type otherKey struct {
+	Key   string `json:"key"` // hex, 32 bytes
+	Compr bool   `json:"compr"`
 }
 
 // script kinds: p2pkh p2sh p2wpkh p2tr pay key number Key of the wallet (P2SH = P2SH-P2WPKH);
-// f_p2pkh f_p2sh f_p2wpkh f_p2wsh f_p2tr pay somebody else (Key seeds the hash).
+// f_p2pkh f_p2sh f_p2wpkh f_p2wsh f_p2tr pay somebody else (Key seeds the hash);
+// o_p2pkh pays the key hash of imported key number Key (its public key in the form the WIF says).
 type spk struct {
 	Kind string `json:"kind"`
 	Key  int    `json:"key"`
@@ -201,7 +208,13 @@ func h256(parts ...string) []byte {
 }
 
 // scriptOf builds the output script of a script kind for the wallet's keys.
-func scriptOf(s spk, keys []keyInfo) []byte {
+func scriptOf(s spk, keys []keyInfo, others ...keyInfo) []byte {
+	if s.Kind == "o_p2pkh" {
+		if len(others) == 0 {
+			panic("bad case: o_p2pkh without imported keys")
+		}
+		return hd.P2PKHScript(others[((s.Key%len(others))+len(others))%len(others)].pub)
+	}
 	if !strings.HasPrefix(s.Kind, "f_") {
 		k := keys[((s.Key%len(keys))+len(keys))%len(keys)]
 		switch s.Kind {
@@ -314,7 +327,7 @@ func txidString(tx *wire.Tx) string {
 	return hex.EncodeToString(id[:])
 }
 
-func buildFunding(i int, f ftx, keys []keyInfo) *wire.Tx {
+func buildFunding(i int, f ftx, keys []keyInfo, others ...keyInfo) *wire.Tx {
 	tx := &wire.Tx{Version: f.Ver, LockTime: f.Lock}
 	for j := 0; j < f.NIn; j++ {
 		in := wire.TxIn{PrevIndex: uint32(j), Sequence: 0xffffffff}
@@ -327,7 +340,7 @@ func buildFunding(i int, f ftx, keys []keyInfo) *wire.Tx {
 		tx.In = append(tx.In, in)
 	}
 	for _, o := range f.Outs {
-		tx.Out = append(tx.Out, wire.TxOut{Value: o.Value, PkScript: scriptOf(o.spk, keys)})
+		tx.Out = append(tx.Out, wire.TxOut{Value: o.Value, PkScript: scriptOf(o.spk, keys, others...)})
 	}
 	return tx
 }
@@ -337,7 +350,7 @@ func buildFunding(i int, f ftx, keys []keyInfo) *wire.Tx {
 
 const stdFlags = interp.AllFlags &^ interp.SIGPUSHONLY // Core's STANDARD_SCRIPT_VERIFY_FLAGS
 
-func checkECDSA(sig, pub []byte, digest func(ht uint32) [32]byte) error {
+func checkECDSA(sig, pub []byte, digest func(ht uint32) [32]byte, legacy ...bool) error {
 	if len(sig) < 9 {
 		return fmt.Errorf("signature of %d bytes", len(sig))
 	}
@@ -351,7 +364,9 @@ func checkECDSA(sig, pub []byte, digest func(ht uint32) [32]byte) error {
 	if b := ht &^ 0x80; b < 1 || b > 3 {
 		return fmt.Errorf("undefined hash type %02x", ht)
 	}
-	if len(pub) != 33 || (pub[0] != 2 && pub[0] != 3) {
+	if len(legacy) > 0 && legacy[0] && len(pub) == 65 && pub[0] == 4 {
+		// an uncompressed key is standard in a P2PKH spend (not in witness programs)
+	} else if len(pub) != 33 || (pub[0] != 2 && pub[0] != 3) {
 		return fmt.Errorf("public key %x is not a compressed key", pub)
 	}
 	d := digest(uint32(ht))
@@ -398,7 +413,7 @@ func verifyInput(tx *wire.Tx, idx int, spent []wire.TxOut) error {
 		if !bytes.Equal(hd.Hash160(pub), s[3:23]) {
 			return fmt.Errorf("key %x in scriptSig does not hash to %x", pub, s[3:23])
 		}
-		err = checkECDSA(sig, pub, func(ht uint32) [32]byte { return sighash.Legacy(tx, idx, s, ht) })
+		err = checkECDSA(sig, pub, func(ht uint32) [32]byte { return sighash.Legacy(tx, idx, s, ht) }, true)
 	case len(s) == 23 && s[0] == 0xa9 && s[1] == 20 && s[22] == 0x87: // P2SH-P2WPKH
 		ss := in.ScriptSig
 		if len(ss) != 23 || ss[0] != 22 || ss[1] != 0 || ss[2] != 20 {
@@ -550,11 +565,25 @@ func checkCase(c txCase) (info caseInfo, err error) {
 	if err = os.WriteFile(filepath.Join(dir, ".secret"), []byte(c.W.Pass), 0o600); err != nil {
 		return info, err
 	}
+	if len(c.W.Others) > 0 {
+		var ob strings.Builder
+		for i, o := range c.W.Others {
+			kb, _ := hex.DecodeString(o.Key)
+			ver := byte(0x80)
+			if c.W.Testnet {
+				ver = 0xef
+			}
+			fmt.Fprintf(&ob, "%s imported %d\n", addr.WIFEncode(ver, kb, o.Compr), i)
+		}
+		if err = os.WriteFile(filepath.Join(dir, ".others"), []byte(ob.String()), 0o600); err != nil {
+			return info, err
+		}
+	}
 	dres, err := runWallet(bin, dir, "-dump", "*")
 	if err != nil {
 		return info, err
 	}
-	var keys []keyInfo
+	var keys, others []keyInfo
 	wifVer := byte(0x80)
 	if c.W.Testnet {
 		wifVer = 0xef
@@ -564,12 +593,23 @@ func checkCase(c txCase) (info caseInfo, err error) {
 		if len(f) < 2 {
 			continue
 		}
-		if ver, key, compr, ok := addr.WIFDecode(f[0]); ok && ver == wifVer && compr {
+		if ver, key, compr, ok := addr.WIFDecode(f[0]); ok && ver == wifVer {
 			k := new(big.Int).SetBytes(key)
 			if k.Sign() == 0 || k.Cmp(ec.N) >= 0 {
 				return info, fmt.Errorf("wallet key %x is not a valid secret", key)
 			}
-			keys = append(keys, keyInfo{priv: key, pub: ec.SerializeCompressed(ec.BaseMul(k))})
+			ki := keyInfo{priv: key, pub: ec.SerializeCompressed(ec.BaseMul(k))}
+			if !compr {
+				ki.pub = ec.SerializeUncompressed(ec.BaseMul(k))
+			}
+			if len(others) < len(c.W.Others) { // the imported keys come first
+				if want, _ := hex.DecodeString(c.W.Others[len(others)].Key); !bytes.Equal(want, key) || compr != c.W.Others[len(others)].Compr {
+					return info, fmt.Errorf("imported key %d is dumped as %s", len(others), f[0])
+				}
+				others = append(others, ki)
+			} else if compr {
+				keys = append(keys, ki)
+			}
 		}
 	}
 	if dres.code != 0 || len(keys) != c.W.KeyCnt {
@@ -583,9 +623,13 @@ func checkCase(c txCase) (info caseInfo, err error) {
 	listKind := map[string]string{"p2kh": "p2pkh", "segwit": "p2sh", "bech32": "p2wpkh", "tap": "p2tr"}[c.W.AType]
 	listed := map[int][]byte{}
 	if wt, e := os.ReadFile(filepath.Join(dir, "wallet.txt")); e == nil && lres.code == 0 {
-		n := 0
+		n, skip := 0, 0
 		for _, l := range strings.Split(string(wt), "\n") {
 			if l == "" || strings.HasPrefix(l, "#") {
+				continue
+			}
+			if skip < len(others) {
+				skip++ // the imported keys are listed first ("-=CompressedKey=-" stands for an uncompressed one)
 				continue
 			}
 			d, ok := addr.Decode(strings.Fields(l)[0])
@@ -606,9 +650,16 @@ func checkCase(c txCase) (info caseInfo, err error) {
 		if s.Kind == listKind {
 			return listed[((s.Key%len(keys))+len(keys))%len(keys)]
 		}
-		return scriptOf(s, keys)
+		return scriptOf(s, keys, others...)
 	}
 	own := map[string]bool{}
+	for _, o := range others {
+		own[string(hd.P2PKHScript(o.pub))] = true
+		if len(o.pub) == 33 {
+			own[string(hd.P2WPKHScript(o.pub))], own[string(hd.P2SHP2WPKHScript(o.pub))] = true, true
+			own[string(append([]byte{0x51, 32}, o.pub[1:]...))] = true
+		}
+	}
 	for i := range keys {
 		for _, k := range []string{"p2pkh", "p2sh", "p2wpkh", "p2tr"} {
 			own[string(scriptOf(spk{Kind: k, Key: i}, keys))] = true
@@ -622,7 +673,7 @@ func checkCase(c txCase) (info caseInfo, err error) {
 	fund := make([]*wire.Tx, len(c.Fund))
 	ids := make([]string, len(c.Fund))
 	for i, f := range c.Fund {
-		tx := buildFunding(i, f, keys)
+		tx := buildFunding(i, f, keys, others...)
 		for o := range tx.Out {
 			tx.Out[o].PkScript = script(f.Outs[o].spk)
 		}
@@ -697,6 +748,9 @@ func checkCase(c txCase) (info caseInfo, err error) {
 		res, err := runWallet(bin, dir, append(args, "-raw", "raw.txt")...)
 		if err != nil {
 			return info, err
+		}
+		if strings.Contains(res.stderr, "panic:") || strings.Contains(res.stderr, "goroutine 1 [") {
+			return info, fmt.Errorf("the wallet crashed: %s", res)
 		}
 		got, fn, err := readTxFile(dir, before, txfile)
 		if err != nil {
@@ -827,6 +881,9 @@ func checkCase(c txCase) (info caseInfo, err error) {
 	if err != nil {
 		return info, err
 	}
+	if strings.Contains(res.stderr, "panic:") || strings.Contains(res.stderr, "goroutine 1 [") {
+		return info, fmt.Errorf("the wallet crashed: %s", res)
+	}
 	got, fn, err := readTxFile(dir, before, txfile)
 	if err != nil {
 		return info, fmt.Errorf("%v: %s", err, res)
@@ -924,6 +981,10 @@ func checkCase(c txCase) (info caseInfo, err error) {
 		}
 		if found < 0 {
 			return info, fmt.Errorf("-msg: no zero-value OP_RETURN output: %s", describeTx(got))
+		}
+		// OP_RETURN followed by one push of exactly the message, in the standard push encoding for its length
+		if want := append([]byte{0x6a}, sighash.PushData([]byte(c.Msg))...); !bytes.Equal(rest[found].PkScript, want) {
+			return info, fmt.Errorf("-msg of %d bytes: the OP_RETURN output script is %x, expected OP_RETURN <message> = %x", len(c.Msg), rest[found].PkScript, want)
 		}
 		rest = append(rest[:found], rest[found+1:]...)
 	}
@@ -1064,6 +1125,14 @@ func genCase(t *rapid.T) txCase {
 	c.W = wcfg{Type: 3, AType: rapid.SampledFrom([]string{"p2kh", "segwit", "bech32", "tap"}).Draw(t, "atype"),
 		Testnet: rapid.IntRange(0, 2).Draw(t, "testnet") == 0, KeyCnt: rapid.IntRange(3, 20).Draw(t, "keycnt"),
 		Pass: rapid.StringMatching(`[a-zA-Z0-9 ]{4,20}`).Draw(t, "pass")}
+	if rapid.IntRange(0, 3).Draw(t, "others") == 0 {
+		// keys imported through .others: WIF strings of compressed and of uncompressed keys
+		for i, n := 0, rapid.IntRange(1, 2).Draw(t, "nothers"); i < n; i++ {
+			kb := rapid.SliceOfN(rapid.Byte(), 32, 32).Draw(t, "okey")
+			kb[0] = kb[0]&0x7f | 1
+			c.W.Others = append(c.W.Others, otherKey{Key: hex.EncodeToString(kb), Compr: rapid.IntRange(0, 2).Draw(t, "ocompr") == 0})
+		}
+	}
 	if rapid.IntRange(0, 3).Draw(t, "seedpfx") == 0 {
 		c.W.SeedPfx = rapid.StringMatching(`[a-zA-Z0-9_.:-]{1,40}`).Draw(t, "seedpfxv")
 		if rapid.Bool().Draw(t, "shortpass") {
@@ -1117,6 +1186,9 @@ func genCase(t *rapid.T) txCase {
 		}
 		for o := 0; o < no; o++ {
 			f.Outs = append(f.Outs, fout{spk: genSpk(t, "fo", 75), Value: genValue(t, "fo")})
+			if len(c.W.Others) > 0 && rapid.IntRange(0, 2).Draw(t, "fo_other") == 0 {
+				f.Outs[len(f.Outs)-1].spk = spk{Kind: "o_p2pkh", Key: rapid.IntRange(0, 1).Draw(t, "fo_okey")}
+			}
 			all = append(all, [2]int{i, o})
 		}
 		c.Fund = append(c.Fund, f)
@@ -1276,13 +1348,26 @@ func genCase(t *rapid.T) txCase {
 		s := genSpk(t, "chg", 40)
 		c.Change = &s
 	}
-	if rapid.IntRange(0, 9).Draw(t, "msg") < 2 {
-		k := rapid.IntRange(1, 40).Draw(t, "msglen")
-		rs := make([]rune, k)
-		for i := range rs {
-			rs[i] = msgRunes[rapid.IntRange(0, len(msgRunes)-1).Draw(t, "mr")]
+	if rapid.IntRange(0, 9).Draw(t, "msg") < 3 {
+		// 1..100 bytes, with weight on the lengths where the push encoding changes (75/76) and the relay limits (80/83)
+		k := rapid.SampledFrom([]int{75, 76, 77, 1, 2, 40, 74, 78, 80, 83, 84, 100}).Draw(t, "msglen")
+		if rapid.IntRange(0, 2).Draw(t, "msgany") == 0 {
+			k = rapid.IntRange(1, 100).Draw(t, "msglen2")
 		}
-		c.Msg = strings.TrimSpace(string(rs))
+		if rapid.IntRange(0, 4).Draw(t, "msgwide") == 0 {
+			rs := make([]rune, (k+2)/3)
+			for i := range rs {
+				rs[i] = msgRunes[rapid.IntRange(0, len(msgRunes)-1).Draw(t, "mr")]
+			}
+			c.Msg = "m" + strings.TrimSpace(string(rs)) + "."
+		} else {
+			b := make([]byte, k)
+			for i := range b {
+				b[i] = "abcdefghijklmnopqrstuvwxyzABCDEFGHIJKLMNOPQRSTUVWXYZ0123456789 .,:;!?_/"[rapid.IntRange(0, 70).Draw(t, "mc")]
+			}
+			b[0], b[k-1] = 'M', '.'
+			c.Msg = string(b)
+		}
 	}
 	if rapid.IntRange(0, 9).Draw(t, "seq") < 3 {
 		v := rapid.SampledFrom([]int64{-1, -2, -3, 0, 1, 144, 0x00400001, 0x80000000, 0xfffffffd, 0xffffffff}).Draw(t, "seqv")
@@ -1375,6 +1460,19 @@ func TestWalletTx(t *testing.T) {
 			}
 			if padded {
 				r.Class("spaces_around_pairs")
+			}
+		}
+		if len(c.W.Others) > 0 {
+			r.Class("imported_keys")
+		}
+		if c.Msg != "" {
+			switch n := len(c.Msg); {
+			case n < 75:
+				r.Class("msg_below_75_bytes")
+			case n <= 77:
+				r.Class(fmt.Sprintf("msg_%d_bytes", n))
+			default:
+				r.Class("msg_above_77_bytes")
 			}
 		}
 		if info.msgSigned {
